@@ -20,6 +20,7 @@ import (
 	"regexp"
 	"strings"
 	"time"
+	"unicode/utf8"
 
 	"github.com/crewjam/saml"
 	dsig "github.com/russellhaering/goxmldsig"
@@ -270,9 +271,7 @@ func hostileSession(r *rand.Rand) (mSession, string) {
 func genSetup(r *rand.Rand) c07Setup {
 	s := c07Setup{entityIDSet: r.Intn(2) == 0, spKey: pick(r, []string{"rsa_b", "rsa_c", "ec_256"}), cert: r.Intn(2) == 0,
 		binding: pick(r, []string{"redirect", "post"}), idpMethod: pick(r, c06Methods), idpSigner: r.Intn(3) == 0, initiated: r.Intn(6) == 0}
-	if s.spKey == "ec_256" {
-		s.cert = false // an EC certificate cannot receive RSA-OAEP key transport: see the note in the evidence
-	}
+	// an ECDSA SP with a certificate publishes it for signing only (fix F18) and is answered unencrypted
 	s.signed = s.cert && r.Intn(2) == 0
 	return s
 }
@@ -316,9 +315,36 @@ func c07Pipeline(c *Ctx) {
 			sess = mSession{Create: now, NameID: strings.Repeat("n", i), UserName: "u", Groups: []string{"g"}}
 			cls = "length-sweep"
 		}
+		switch {
+		case i >= 16 && i < 24: // ECDSA SP keys with a certificate (fix F18): answered unencrypted
+			setup.spKey, setup.cert, setup.signed = "ec_256", true, i%2 == 0
+		case i >= 24 && i < 30: // "]]>" in each string that travels as an XML attribute (known finding K4)
+			sess = mSession{Create: now, NameID: "alice", UserName: "u"}
+			at := mAttribute{Friendly: "f", Name: "n", Format: "urn:x", Values: []mAttrValue{{Type: "xs:string", Value: "v]]>"}}}
+			switch i {
+			case 24:
+				sess.Index = "i]]>"
+			case 25:
+				sess.NameIDFormat = "urn:]]>"
+			case 26:
+				at.Friendly = "]]>"
+			case 27:
+				at.Name = "a]]>b"
+			case 28:
+				at.Format = "]]>x"
+			case 29:
+				at.Values[0].Type = "xs:]]>"
+			}
+			if i >= 26 {
+				sess.Custom = []mAttribute{at}
+			}
+		}
 		relay := pick(c.Rng, []string{"", "relay", "a&b=c d"})
 		res := runPipeline(setup, sess, now, relay)
 		key := setup.key()
+		if cdataEndInAttribute(sess) {
+			cls = "cdata-end-in-attribute"
+		}
 		key["string_class"] = cls
 		for k, v := range key {
 			c.Count(k + "/" + v)
@@ -351,8 +377,8 @@ func c07Pipeline(c *Ctx) {
 		if res.spMD != nil && !setup.initiated && !seenSetup[sk] {
 			seenSetup[sk] = true
 			md := spMetaToModel(res.spMD)
-			keyTerm := "None"
-			if setup.cert {
+			keyTerm := "None" // expected: encryption exactly for an RSA certificate
+			if setup.cert && !strings.HasPrefix(setup.spKey, "ec") {
 				keyTerm = map[string]string{"rsa_b": "(Some 2)", "rsa_c": "(Some 3)"}[setup.spKey]
 			}
 			c.Count("registration/" + sk)
@@ -365,10 +391,48 @@ func c07Pipeline(c *Ctx) {
 			})
 		}
 	}
-	// documented, not counted: an SP with an ECDSA key and a certificate advertises that certificate for
-	// encryption; the IdP cannot use it (RSA-OAEP key transport) and answers 500
-	ec := runPipeline(c07Setup{spKey: "ec_256", cert: true, binding: "post"}, mSession{Create: now, NameID: "alice"}, now, "")
-	c.Extra["ecdsa_sp_with_certificate"] = fmt.Sprintf("accepted=%v stopped_at=%s detail=%s", ec.accepted, ec.stage, ec.detail)
+}
+
+// validXMLChars: valid UTF-8 and every rune in the XML 1.0 Char production.
+func validXMLChars(s string) bool {
+	for i := 0; i < len(s); {
+		r, w := utf8.DecodeRuneInString(s[i:])
+		if r == utf8.RuneError && w == 1 {
+			return false
+		}
+		if !(r == 0x9 || r == 0xA || r == 0xD || (r >= 0x20 && r <= 0xD7FF) || (r >= 0xE000 && r <= 0xFFFD) || (r >= 0x10000 && r <= 0x10FFFF)) {
+			return false
+		}
+		i += w
+	}
+	return true
+}
+
+// cdataEndInAttribute: the session consists of XML characters and one of its
+// strings that travel as XML attribute values contains "]]>" (known finding K4).
+func cdataEndInAttribute(s mSession) bool {
+	all := []string{s.Index, s.NameID, s.NameIDFormat, s.SubjectID, s.UserName, s.Email, s.CommonName, s.Surname, s.GivenName, s.ScopedAff, s.EPPN}
+	all = append(all, s.Groups...)
+	attrPos := []string{s.Index, s.NameIDFormat}
+	for _, a := range s.Custom {
+		all = append(all, a.Friendly, a.Name, a.Format)
+		attrPos = append(attrPos, a.Friendly, a.Name, a.Format)
+		for _, v := range a.Values {
+			all = append(all, v.Type, v.Value)
+			attrPos = append(attrPos, v.Type)
+		}
+	}
+	for _, x := range all {
+		if !validXMLChars(x) {
+			return false
+		}
+	}
+	for _, x := range attrPos {
+		if strings.Contains(x, "]]>") {
+			return true
+		}
+	}
+	return false
 }
 
 var _ = x509.ParseCertificate
